@@ -263,7 +263,9 @@ _CRLF = st.lists(st.sampled_from([b"\r", b"\r", b"\n", b"\r\n", b"\r\r\n", b"\n\
 
 def _payloads():
     return st.one_of(
-        _CRLF,st.binary(min_size=1, max_size=40), st.binary(min_size=1, max_size=600), st.sampled_from([b"\r\n", b"\r", b"\n", b"abc\r\n", b"$GNGGA,1\r\nxyz"]),
+        _CRLF,
+        st.sampled_from([b"x" * 5000, b"$GP" + b"A" * 4200, b"\r" * 4100]),  # long runs without a CR LF pair
+st.binary(min_size=1, max_size=40), st.binary(min_size=1, max_size=600), st.sampled_from([b"\r\n", b"\r", b"\n", b"abc\r\n", b"$GNGGA,1\r\nxyz"]),
     ).map(lambda b: ["send", b.hex()])
 
 
@@ -291,7 +293,8 @@ def o_diff(case):
 
     items = case["items"]
     data = streams.join(items)
-    ref = [(raw, pub(p)) for raw, p in RTCMReader(io.BytesIO(data), quitonerror=case["qoe"], labelmsm=case["labelmsm"])]
+    val = case.get("validate", 1)
+    ref = [(raw, pub(p)) for raw, p in RTCMReader(io.BytesIO(data), quitonerror=case["qoe"], labelmsm=case["labelmsm"], validate=val)]
     wire, kw = data, {}
     if case.get("enc"):
         # the same bytes as an HTTP chunked body (C12 judges the de-chunking itself; here: the messages are the same)
@@ -307,9 +310,9 @@ def o_diff(case):
             # the application wraps the socket itself and hands the (public) wrapper to the reader
             from pyrtcm.socketwrapper import SocketWrapper
 
-            rdr = RTCMReader(SocketWrapper(sock, bufsize=case["bufsize"], **kw), quitonerror=case["qoe"], labelmsm=case["labelmsm"])
+            rdr = RTCMReader(SocketWrapper(sock, bufsize=case["bufsize"], **kw), quitonerror=case["qoe"], labelmsm=case["labelmsm"], validate=val)
         else:
-            rdr = RTCMReader(sock, quitonerror=case["qoe"], labelmsm=case["labelmsm"], bufsize=case["bufsize"], **kw)
+            rdr = RTCMReader(sock, quitonerror=case["qoe"], labelmsm=case["labelmsm"], bufsize=case["bufsize"], validate=val, **kw)
         got = [(raw, pub(p)) for raw, p in rdr]
     finally:
         sock.close()
@@ -346,6 +349,7 @@ def s_diff(draw, tier):
         cuts = streams.boundaries(items) if mode == 0 else streams.structure_cuts(items)
     else:
         cuts = draw(streams.partitions(n))
+    extra["validate"] = draw(st.sampled_from([1, 1, 0]))
     return {**extra, "items": items, "cuts": cuts, "bufsize": draw(st.sampled_from(BUFS)), "qoe": draw(st.sampled_from([0, 1])), "labelmsm": draw(st.sampled_from([1, 2]))}
 
 
